@@ -147,6 +147,8 @@ type Monitors struct {
 	bans map[string]map[string]*modelBan
 	// C13: the configuration as recorded when its entry was applied
 	cfg *verifview.Config
+	// C13: when each session last presented a captcha the monitor's own verifier accepts
+	solved map[verifview.Id]int64
 	// set when the announced-membership model was resynchronised after a divergence
 	resyncs int
 	// ServerName is the network name used as prefix of server-originated lines
@@ -155,7 +157,7 @@ type Monitors struct {
 }
 
 func NewMonitors() *Monitors {
-	return &Monitors{ServerName: "robustirc.net", announced: map[string]map[string]bool{}, bans: map[string]map[string]*modelBan{}, ended: map[uint64]uint64{}, Stats: map[string]int{}}
+	return &Monitors{ServerName: "robustirc.net", announced: map[string]map[string]bool{}, bans: map[string]map[string]*modelBan{}, solved: map[verifview.Id]int64{}, ended: map[uint64]uint64{}, Stats: map[string]int{}}
 }
 
 func (m *Monitors) Step(st *Step) []Finding {
